@@ -6,6 +6,9 @@ stated against `Reamber/Spec/Qua.lean` (`denote`, `quantize`, `closeChart`, `doc
 definitions the harness evaluates on the implementation's output.
 -/
 import Reamber.Lemmas.Qua
+import Reamber.Lemmas.QuaTextLex
+import Reamber.Lemmas.QuaTextFloat
+import Reamber.Lemmas.QuaTextStruct
 import Reamber.Generated.QuaTables
 
 namespace Reamber.Qua
@@ -775,3 +778,288 @@ theorem qua_write_read (d : Doc) (c : Chart) (h : read d = .ok c) : (write c >>=
 
 
 end Reamber.Qua
+
+/-! ## the YAML text layer (Model/QuaText.lean)
+
+`emitQua t = some s` says: `t` is a tree of the block dialect whose every key is a plain identifier and whose every
+scalar is in the modelled class — null, bool, int, a float lexeme of the resolver's sub-language, or a string that
+libyaml writes plain or single-quoted on one line (all characters printable, no fold at column 80, resolution decided
+by the modelled part of the resolver) — and `s` is the text written for it.  Outside the class (`none`): strings that
+need double quotes (tab, line break, non-BMP, control characters), strings folded over several lines, plain strings
+that look numeric without being canonical.  The harness compares `emitQua` with `QuaMap.write()` character for
+character on every written case of the class, and `parseQua` with `yaml.safe_load` on every text it accepts. -/
+
+namespace Reamber.QuaText
+
+open Reamber.Osu (Str splitOn joinWith)
+open Reamber.Qua (Doc Chart MetaOk)
+
+/-- well-formed tree: every list of records is non-empty and has no empty record; no mapping repeats a key -/
+def WFTree (t : Tree) : Prop := WF0 t ∧ treeNodup t = true
+
+theorem joinWith_concat_nil (c : Char) : ∀ (ls : List Str), ls ≠ [] → joinWith c (ls ++ [[]]) = joinWith c ls ++ [c]
+  | [], h => absurd rfl h
+  | [p], _ => by simp [joinWith]
+  | p :: q :: ps, _ => by
+    have ih := joinWith_concat_nil c (q :: ps) (by simp)
+    simp only [List.cons_append] at ih ⊢
+    simp [joinWith, ih]
+
+theorem textLines_join (ls : List Str) (hne : ls ≠ []) (h : ∀ l ∈ ls, '\n' ∉ l) :
+    textLines (joinWith '\n' ls ++ ['\n']) = ls := by
+  unfold textLines
+  rw [← joinWith_concat_nil '\n' ls hne, Reamber.Osu.splitOn_joinWith '\n' (ls ++ [[]]) (by simp)]
+  · simp
+  · intro p hp
+    simp only [List.mem_append, List.mem_singleton] at hp
+    rcases hp with hp | rfl
+    · exact h p hp
+    · simp
+
+theorem parseChars_emitChars (t : Tree) (s : Str) (hwf : WFTree t) (h : emitChars t = some s) :
+    parseChars s = some t := by
+  unfold emitChars at h
+  by_cases hte : t.isEmpty = true
+  · simp [hte] at h
+  · simp only [hte] at h
+    have htne : t ≠ [] := by intro e; subst e; simp at hte
+    cases hm : mapO renderLine (emitTree t) with
+    | none => simp [hm] at h
+    | some ls =>
+      simp [hm] at h
+      subst h
+      have hlne : ls ≠ [] := mapO_ne_nil renderLine _ ls hm (emitTree_ne_nil t hwf.1 htne)
+      have hnl : ∀ l ∈ ls, '\n' ∉ l := by
+        intro l hl
+        obtain ⟨L, _, hL⟩ := mapO_mem renderLine _ ls hm l hl
+        exact renderLine_noNewline L l hL
+      have hlex : mapO lexLine ls = some (emitTree t) :=
+        mapO_inverse renderLine lexLine (fun L x hx => lexLine_renderLine L x hx) _ ls hm
+      unfold parseChars
+      rw [textLines_join ls hlne hnl, hlex]
+      simp only [parseTree_emitTree t hwf.1, hwf.2]
+      simp [hte]
+
+/-- **Text round trip** (`_partial`: for the class of scalars `emitQua` accepts, stated above; the full statement
+quantifies over every tree `QuaMap.write` can build, including strings libyaml double-quotes or folds):
+reading back the text written for a well-formed tree of the class gives the tree. -/
+theorem parse_emit_partial (t : Tree) (s : String) (hwf : WFTree t) (h : emitQua t = some s) : parseQua s = some t := by
+  unfold emitQua at h
+  cases he : emitChars t with
+  | none => simp [he] at h
+  | some cs =>
+    simp [he] at h
+    subst h
+    unfold parseQua
+    rw [String.toList_ofList]
+    exact parseChars_emitChars t cs hwf he
+
+/-- the document `yaml.safe_load` hands to `QuaMap.read` for an emitted text is the document the tree denotes -/
+theorem parse_emit_doc (t : Tree) (s : String) (d : Doc) (hwf : WFTree t) (he : emitQua t = some s)
+    (hd : treeDoc t = some d) : (parseQua s).bind treeDoc = some d := by
+  rw [parse_emit_partial t s hwf he]; exact hd
+
+/-- `QuaMap.read(text)` on an emitted text is the tree-level `read` of the document -/
+theorem readText_emit (t : Tree) (s : String) (d : Doc) (hwf : WFTree t) (he : emitQua t = some s)
+    (hd : treeDoc t = some d) : readText s = some (Reamber.Qua.read d) := by
+  unfold readText
+  rw [parse_emit_partial t s hwf he]
+  simp [hd]
+
+/-- **write → text → read.**  `t` is any lexical rendering of the document `write c` builds (`treeDoc t = some d`: its
+float lexemes denote the document's numbers) inside the class; reading the written text gives the chart with every
+time truncated to whole milliseconds. -/
+theorem qua_read_write_text (c : Chart) (d : Doc) (t : Tree) (s : String) (hm : MetaOk c.info)
+    (hw : Reamber.Qua.write c = .ok d) (hwf : WFTree t) (hd : treeDoc t = some d) (he : emitQua t = some s) :
+    readText s = some (.ok (Reamber.Qua.Spec.quantize c)) := by
+  rw [readText_emit t s d hwf he hd]
+  have h1 := Reamber.Qua.qua_read_write c hm
+  rw [hw] at h1
+  simp only [bind, Except.bind] at h1
+  rw [h1]
+
+/-- the written text denotes the chart with every time moved by < 1 ms -/
+theorem qua_write_denotes_text (c : Chart) (d : Doc) (t : Tree) (s : String) (hm : MetaOk c.info)
+    (hk : Reamber.Qua.Spec.ksLists c = true) (hw : Reamber.Qua.write c = .ok d) (hwf : WFTree t)
+    (hd : treeDoc t = some d) (he : emitQua t = some s) :
+    ((parseQua s).bind treeDoc).map Reamber.Qua.Spec.denote = some (.ok (Reamber.Qua.Spec.quantize c)) ∧
+    Reamber.Qua.Spec.closeChart c (Reamber.Qua.Spec.quantize c) = true := by
+  rw [parse_emit_doc t s d hwf he hd]
+  have := Reamber.Qua.qua_write_denotes c d hm hk hw
+  exact ⟨by simp [this.1], this.2⟩
+
+/-- **text → read → write → text → read.**  No hypothesis on the chart beyond having been read from a text of the
+subset. -/
+theorem qua_write_read_text (s : String) (c : Chart) (d' : Doc) (t' : Tree) (s' : String)
+    (hr : readText s = some (.ok c)) (hw : Reamber.Qua.write c = .ok d') (hwf : WFTree t')
+    (hd : treeDoc t' = some d') (he : emitQua t' = some s') :
+    readText s' = some (.ok (Reamber.Qua.Spec.quantize c)) := by
+  rw [readText_emit t' s' d' hwf he hd]
+  unfold readText at hr
+  cases hp : parseQua s with
+  | none => simp [hp] at hr
+  | some t0 =>
+    cases hd0 : treeDoc t0 with
+    | none => simp [hp, hd0] at hr
+    | some d0 =>
+      simp [hp, hd0] at hr
+      have h1 := Reamber.Qua.qua_write_read d0 c hr
+      rw [hw] at h1
+      simp only [bind, Except.bind] at h1
+      rw [h1]
+
+/-- the float lexemes of the class are exactly the sub-language `floatLex` of the resolver's float pattern (what
+`represent_float` writes): `scText_flt : floatLex l = true → scText (.flt l) = some l` (Lemmas/QuaTextFloat.lean);
+every int is in the class: `scText (.int i) = some (showInt i)` by definition, read back by `lexVal_showInt`. -/
+theorem flt_class (l : Str) : scText (.flt l) = some l ↔ floatLex l = true := by
+  constructor
+  · intro h
+    by_cases hl : lexVal l = some (.sc (.flt l))
+    · -- the lexer only answers `flt` from the `floatLex` branch of the resolver
+      by_contra hf
+      have hf' : floatLex l = false := by simpa using hf
+      have hp := lexVal_flt_plain hl
+      rw [lexVal_plain l hp] at hl
+      unfold resolve at hl
+      simp only [hf'] at hl
+      split at hl <;> try (simp at hl)
+      split at hl <;> try (simp at hl)
+      split at hl <;> try (simp at hl)
+      split at hl <;> try (simp at hl)
+    · simp [scText, hl] at h
+  · exact scText_flt l
+
+/-! ### non-vacuity: a document with a quoted number-like string, a string with `:` `#` `'`, an empty list, a float,
+a hold-less hit object with a nested key sound -/
+
+def exTree : Tree :=
+  [("Title".toList, .sc (.str "a b".toList)), ("Mode".toList, .sc (.str "123".toList)),
+   ("Artist".toList, .sc (.str "it's: #1".toList)), ("SliderVelocities".toList, .empty),
+   ("TimingPoints".toList, .recs [[("StartTime".toList, .sc (.int 0)), ("Bpm".toList, .sc (.flt "120.5".toList))]]),
+   ("HitObjects".toList, .recs [[("StartTime".toList, .sc (.int 5)), ("Lane".toList, .sc (.int 1)),
+      ("KeySounds".toList, .recs [[("Sample".toList, .int 1), ("Volume".toList, .int 100)]])]])]
+
+theorem exTree_wf : WFTree exTree := by
+  refine ⟨?_, by decide +kernel⟩
+  simp [WF0, WFV, WF1, WF2, exTree]
+  refine ⟨?_, ?_⟩
+  · intro a b h; rcases h with ⟨-, rfl⟩ | ⟨-, rfl⟩ <;> simp
+  · intro a b h; rcases h with ⟨-, rfl⟩ | ⟨-, rfl⟩ | ⟨-, rfl⟩ <;> simp
+
+theorem exTree_text : emitQua exTree =
+    some "Title: a b\nMode: '123'\nArtist: 'it''s: #1'\nSliderVelocities: []\nTimingPoints:\n- StartTime: 0\n  Bpm: 120.5\nHitObjects:\n- StartTime: 5\n  Lane: 1\n  KeySounds:\n  - Sample: 1\n    Volume: 100\n" := by
+  decide +kernel
+
+theorem exTree_doc : (treeDoc exTree).isSome = true := by decide +kernel
+
+/-- non-vacuity of `parse_emit_partial` and of the hypotheses `WFTree` / `emitQua … = some …` / `treeDoc … = some …` -/
+example : parseQua "Title: a b\nMode: '123'\nArtist: 'it''s: #1'\nSliderVelocities: []\nTimingPoints:\n- StartTime: 0\n  Bpm: 120.5\nHitObjects:\n- StartTime: 5\n  Lane: 1\n  KeySounds:\n  - Sample: 1\n    Volume: 100\n" = some exTree :=
+  parse_emit_partial exTree _ exTree_wf exTree_text
+
+
+/-- a text `parseQua` accepts has no repeated key in any mapping and is not empty (PyYAML would silently keep the last
+of two equal keys; the subset excludes such texts) -/
+theorem parseQua_nodup (s : String) (t : Tree) (h : parseQua s = some t) : treeNodup t = true ∧ t ≠ [] := by
+  unfold parseQua parseChars at h
+  split at h
+  · simp at h
+  · split at h
+    · simp at h
+    · split at h
+      · rename_i hc
+        simp at h
+        subst h
+        simp only [Bool.and_eq_true, Bool.not_eq_true', List.isEmpty_eq_false_iff] at hc
+        exact hc
+      · simp at h
+
+/-- different well-formed trees of the class have different texts -/
+theorem emitQua_injective (t1 t2 : Tree) (s : String) (h1 : WFTree t1) (h2 : WFTree t2) (e1 : emitQua t1 = some s)
+    (e2 : emitQua t2 = some s) : t1 = t2 := by
+  have a := parse_emit_partial t1 s h1 e1
+  have b := parse_emit_partial t2 s h2 e2
+  rw [a] at b
+  exact Option.some.inj b
+
+/-! ### non-vacuity of the composed theorems on a whole chart -/
+
+section
+open Reamber.Qua (sampleMeta write)
+open Reamber.Qua.Spec (quantize)
+/-- a chart whose numbers have finite decimals: two hits (one with a key sound, one at a negative fractional time), a
+hold, two tempo points, a scroll velocity, two tags -/
+def textChart : Chart :=
+  ⟨sampleMeta, [⟨201 / 2, 2, .list []⟩, ⟨-1 / 2, 0, .list [⟨1, 50⟩]⟩], [⟨7 / 10, 1, 3 / 10, .list []⟩],
+   [⟨0, 120, 3⟩, ⟨10009 / 10, 175 / 2, 4⟩], [⟨11 / 2, 17 / 20⟩]⟩
+
+def e (k : String) (s : String) : List Char × V (V Sc) := (k.toList, .sc (.str s.toList))
+
+/-- the document `write textChart` builds, with `represent_float`'s lexemes, in the order `QuaMap.write` uses -/
+def textTree : Tree :=
+  [e "AudioFile" "", ("SongPreviewTime".toList, .sc (.int 0)), e "BackgroundFile" "", e "BannerFile" "", e "Genre" "",
+   ("BPMDoesNotAffectScrollVelocity".toList, .sc (.bool true)), ("InitialScrollVelocity".toList, .sc (.flt "1.0".toList)),
+   ("HasScratchKey".toList, .sc (.bool true)), ("MapId".toList, .sc (.int (-1))), ("MapSetId".toList, .sc (.int (-1))),
+   e "Mode" "Keys4", e "Title" "", e "Artist" "", e "Source" "", e "Tags" "a b:c", e "Creator" "", e "DifficultyName" "",
+   e "Description" "", ("EditorLayers".toList, .empty), ("CustomAudioSamples".toList, .empty), ("SoundEffects".toList, .empty),
+   ("TimingPoints".toList, .recs [[("StartTime".toList, .sc (.int 0)), ("Bpm".toList, .sc (.flt "120.0".toList))],
+                                   [("StartTime".toList, .sc (.int 1000)), ("Bpm".toList, .sc (.flt "87.5".toList))]]),
+   ("SliderVelocities".toList, .recs [[("StartTime".toList, .sc (.int 5)), ("Multiplier".toList, .sc (.flt "0.85".toList))]]),
+   ("HitObjects".toList, .recs
+     [[("StartTime".toList, .sc (.int 100)), ("Lane".toList, .sc (.int 3)), ("KeySounds".toList, .empty)],
+      [("StartTime".toList, .sc (.int 0)), ("Lane".toList, .sc (.int 1)),
+       ("KeySounds".toList, .recs [[("Sample".toList, .int 1), ("Volume".toList, .int 50)]])],
+      [("StartTime".toList, .sc (.int 0)), ("Lane".toList, .sc (.int 2)), ("KeySounds".toList, .empty),
+       ("EndTime".toList, .sc (.int 1))]])]
+
+theorem textTree_doc : treeDoc textTree = (write textChart).toOption ∧ (write textChart).toOption.isSome = true := by
+  decide +kernel
+
+/-! Bool versions of the structural well-formedness (for `decide` on concrete trees) -/
+def wf2B (r : R2) : Bool := !r.isEmpty
+def wfvB {α} (p : List (List Char × α) → Bool) : V α → Bool
+  | .recs l => !l.isEmpty && l.all p
+  | _ => true
+def wf1B (r : R1) : Bool := !r.isEmpty && r.all (fun kv => wfvB wf2B kv.2)
+def wf0B (t : Tree) : Bool := t.all (fun kv => wfvB wf1B kv.2)
+
+theorem wfv_of_B {α} (p : List (List Char × α) → Bool) (P : List (List Char × α) → Prop) (hp : ∀ r, p r = true → P r)
+    (v : V α) (h : wfvB p v = true) : WFV P v := by
+  cases v with
+  | sc s => trivial
+  | empty => trivial
+  | recs l =>
+    simp only [wfvB, Bool.and_eq_true, List.all_eq_true] at h
+    refine ⟨?_, fun r hr => hp r (h.2 r hr)⟩
+    intro e; subst e; simp at h
+
+theorem wf2_of_B (r : R2) (h : wf2B r = true) : WF2 r := by
+  intro e; subst e; simp [wf2B] at h
+
+theorem wf1_of_B (r : R1) (h : wf1B r = true) : WF1 r := by
+  simp only [wf1B, Bool.and_eq_true, List.all_eq_true] at h
+  refine ⟨?_, fun kv hkv => wfv_of_B wf2B WF2 wf2_of_B kv.2 (h.2 kv hkv)⟩
+  intro e; subst e; simp at h
+
+theorem wf0_of_B (t : Tree) (h : wf0B t = true) : WF0 t := by
+  simp only [wf0B, List.all_eq_true] at h
+  exact fun kv hkv => wfv_of_B wf1B WF1 wf1_of_B kv.2 (h kv hkv)
+
+theorem textTree_wf : WFTree textTree := ⟨wf0_of_B _ (by decide +kernel), by decide +kernel⟩
+
+theorem textTree_text : (emitQua textTree).isSome = true := by decide +kernel
+
+/-- **Non-vacuity of the composed theorem**: the hypotheses of `qua_read_write_text` hold together for a whole chart, so
+reading the text written for it gives the chart with whole-millisecond times. -/
+theorem textChart_round_trip : ∃ s, emitQua textTree = some s ∧ readText s = some (.ok (quantize textChart)) := by
+  cases hs : emitQua textTree with
+  | none => have := textTree_text; simp [hs] at this
+  | some s =>
+    refine ⟨s, rfl, ?_⟩
+    cases hw : write textChart with
+    | error e => have := textTree_doc.2; simp [hw, Except.toOption] at this
+    | ok d =>
+      have hd : treeDoc textTree = some d := by rw [textTree_doc.1, hw]; rfl
+      exact qua_read_write_text textChart d textTree s (by constructor <;> decide +kernel) hw textTree_wf hd hs
+end
+
+end Reamber.QuaText
